@@ -299,20 +299,30 @@ func (t *loopTr) big2PkgConst(at ast.Node, v *types.Var) string {
 		t.fail(at, "%s (%s is exported: other packages can modify it)", shape, v.Name())
 	}
 	init, _, has := t.set.p.valueSpec(v.Name())
-	if !has || init == nil || !t.isBigNewInt(init) {
-		t.fail(at, "%s (%s is not initialised that way)", shape, v.Name())
+	value := ""
+	if has && init != nil {
+		if kv, ok := t.pow2ConstInit(init); ok {
+			// stage 14 (loops_pow2.go): new(big.Int).SetUint64(k), or the package's hex helper on a constant string
+			value = kv.String()
+		}
 	}
-	ic := unparen(init).(*ast.CallExpr)
-	if len(ic.Args) != 1 {
-		t.fail(at, "%s", shape)
-	}
-	tv, ok := t.info.Types[ic.Args[0]]
-	if !ok || tv.Value == nil {
-		t.fail(at, "%s (%s is initialised with a non-constant argument)", shape, v.Name())
-	}
-	k := constant.ToInt(tv.Value)
-	if k.Kind() != constant.Int {
-		t.fail(at, "%s", shape)
+	if value == "" {
+		if !has || init == nil || !t.isBigNewInt(init) {
+			t.fail(at, "%s (%s is not initialised that way, nor by new(big.Int).SetUint64(k) or by a helper `b, _ := new(big.Int).SetString(s, 16); return b` on a constant string of hex digits)", shape, v.Name())
+		}
+		ic := unparen(init).(*ast.CallExpr)
+		if len(ic.Args) != 1 {
+			t.fail(at, "%s", shape)
+		}
+		tv, ok := t.info.Types[ic.Args[0]]
+		if !ok || tv.Value == nil {
+			t.fail(at, "%s (%s is initialised with a non-constant argument)", shape, v.Name())
+		}
+		k := constant.ToInt(tv.Value)
+		if k.Kind() != constant.Int {
+			t.fail(at, "%s", shape)
+		}
+		value = k.ExactString()
 	}
 	// every use, in every file of the package
 	okUse := map[*ast.Ident]bool{}
@@ -347,7 +357,7 @@ func (t *loopTr) big2PkgConst(at ast.Node, v *types.Var) string {
 			t.fail(at, "%s (%s is used in another way at %s:%d)", shape, v.Name(), pos.Filename, pos.Line)
 		}
 	}
-	s := "(" + k.ExactString() + " : Int)"
+	s := "(" + value + " : Int)"
 	big2ConstOK[v] = s
 	return s
 }
